@@ -80,3 +80,6 @@ M("matsown-w-rescaled-in-cauchy", "cauchy.py",
   "    x_cp: NDArrayFloat = x.copy()\n", "    x_cp: NDArrayFloat = x.copy()\n    mats.W = mats.W * 1.0\n", ["MATSOWN"], canary=True)
 M("matsown-theta-reset-in-main", "main.py",
   "        d = xbar - x\n", "        d = xbar - x\n        mats.theta = 1.0\n", ["MATSOWN"])
+
+# ---- BIND: inner calls of line_search (round-4 sweep survivors)
+M("bind-cap-and-iteration-swapped", "linesearch.py", "x0, d, lb, ub, max_steplength_user, above_iter", "x0, d, lb, ub, above_iter, max_steplength_user", ["BIND"])
